@@ -61,7 +61,7 @@ def run(ctx):
         log("[c12] round %d: %d events, %d mismatches %s" % (i, len(lines), len(res), sorted(set(x["key"] for x in res))))
         if not samples:
             samples = [json.loads(l) for l in lines[1:6]]
-    if tot.get("range", 0) < 100 or tot.get("restore", 0) < 10 or tot.get("commit", 0) < 10:
+    if not ctx.violations and (tot.get("range", 0) < 100 or tot.get("restore", 0) < 10 or tot.get("commit", 0) < 10):
         raise Inconclusive("driver did not exercise range/restore/commit: vacuous")
     cov = dict(traces_validated_against_impl=tot["sequences"], samples=samples, recorded_calls=tot["events"],
                range_reads=tot.get("range", 0), prefix_iterations=tot.get("iter", 0), raw_db_scans=tot.get("dbscan", 0),
